@@ -64,3 +64,20 @@ def main():
     print("MANIFEST ok:", len(checks), "checks", len(na), "n/a")
 if __name__ == "__main__":
     main()
+
+
+def write_findings_text():
+    """plain-text view of known_findings.json (the checks read the JSON; this is for readers)"""
+    f = json.load(open(os.path.join(V, "known_findings.json")))["findings"]
+    lines = ["# generated from known_findings.json by tools_manifest.py - do not edit", ""]
+    for e in f:
+        if e["status"] == "known":
+            lines.append("known: property=%s key=%s/%s/%s input=%s :: %s" % (e["property"], e["clause"], e["component"], e["disc"], e.get("input", ""), e["what"]))
+    lines.append("")
+    for e in f:
+        if e["status"] == "fixed":
+            lines.append(e["line"])
+    open(os.path.join(V, "KNOWN_FINDINGS.txt"), "w").write("\n".join(lines) + "\n")
+
+
+write_findings_text()
